@@ -69,9 +69,15 @@ def run_history(job: Dict[str, Any], emit, scratch: Path, tk: h5lib.Tokens):
     view = h5lib.project(rec, km, tk)["view"]
     ev({"op": "init", "dview": view})
     npatches = job.get("npatches", 2)
+    sparse = job.get("sparse", False)
     for k in range(npatches + 1):
-        for _ in range(job.get("nops", 5)):
-            e = h5lib.gen_op(rng, view, depth=3, values=["v1", "v2", "v3", "v4", "v5"])
+        # sparse histories: patches that change very little (nothing, one attribute, one node)
+        nk = rng.choice([0, 1, 1, 1, 2]) if sparse and k > 0 else job.get("nops", 5)
+        w = {"set_attr": 8, "del_attr": 4, "copy": 0.5, "move": 0.5} if sparse and k > 0 else None
+        for _ in range(nk):
+            e = h5lib.gen_op(rng, view, depth=3, values=["v1", "v2", "v3", "v4", "v5"], weights=w)
+            if sparse and k > 0 and e["op"] in ("set_attr", "del_attr") and rng.random() < 0.5:
+                e["p"] = []  # the root group
             try:
                 h5lib.apply_op(rec, e, km, tk.pool)
             except Exception:
